@@ -132,8 +132,12 @@ class Report:
         ev = dict(property_id=self.pid, tier=self.tier, seed=int(self.seed), level=self.level,
                   coverage=cov, assumptions=self.assumptions, wall_s=round(wall, 2),
                   violations=unexpected)
-        os.makedirs(os.path.join(VERIF, "evidence"), exist_ok=True)
-        with open(os.path.join(VERIF, "evidence", self.pid + ".json"), "w") as f:
+        # evidence belongs to runs against /repo itself; runs against a scratch tree (VERIF_REPO, used to try seeded
+        # changes) must not overwrite it
+        alt = os.environ.get("VERIF_REPO") not in (None, "", "/repo")
+        edir = os.path.join(VERIF, ".work", "evidence-scratch") if alt else os.path.join(VERIF, "evidence")
+        os.makedirs(edir, exist_ok=True)
+        with open(os.path.join(edir, self.pid + ".json"), "w") as f:
             json.dump(ev, f, indent=1, default=_js)
             f.write("\n")
         summary = "%s %s seed=%d: %d evaluations, %d distinct non-trivial, %d violation key(s) (%d known), %.1fs" % (
